@@ -275,6 +275,19 @@ def op_new_node(w, inputs, num_outputs, outputs, graph, name):
     return thunk
 
 
+@op
+def op_new_graph(w, inputs, outputs, nodes, initializers):
+    """Graph(...) built from values/nodes that already exist (possibly owned elsewhere)."""
+    ins, outs, ns, inits = w.Vs(inputs), w.Vs(outputs), [w.N(i) for i in nodes], w.Vs(initializers)
+
+    def thunk():
+        g = ir.Graph(ins, outs, nodes=ns, initializers=inits, name=f"G{len(w.graphs)}")
+        w.add_graph(g)
+        return g
+
+    return thunk
+
+
 # --- graph node-list ----------------------------------------------------------
 @op
 def op_g_append(w, g, n):
